@@ -250,6 +250,22 @@ def unit_file_onbatch(ctx):
         obs = fc.obligations(P, A, native_for) + [fc.r3_obligation(P, A)]
         obs = [o for o in obs if o.name.startswith(pref)]
         cfg_driver.decide_cfg(ctx, obs, u.dir, jobs=_jobs())
+        if "K3_" in pref:
+            # r2: the keep-the-active-file test, integer engine E2 on the closure's MIR, validated / replayed through the real Worker
+            try:
+                enc, cb = fc.r2_encoding(P, A)
+                ob = fc.r2_obligation(P, A, enc, u.dir)
+                _log(ctx, "r2 closure %s: %s" % (cb.name[-28:], enc.error or "%d SMT lines, %d panic obligations" % (len(enc.S.lines), len(enc.ex.panics))))
+                validations = {}
+                if not enc.error:
+                    rc, out, err = native_for().run(fc.r2_native_main())
+                    if rc != 0:
+                        raise engine.EngineError("native run of the sized-batch scenarios failed (rc=%s): %s" % (rc, err[-400:]))
+                    vec, problems = fc.r2_vectors(out)
+                    validations = _validate_all(ctx, u, {enc.name: enc}, {enc.name: vec}, problems)
+                driver.decide_all(ctx, [ob], validations, u.dir, lambda o: native_for())
+            except (engine.EngineError, Unsupported) as e:
+                _cfg_fail(ctx, "K3_r2_keep_active_file_test", "r2: %s" % e)
     except (engine.EngineError, Unsupported, Inconclusive) as e:
         _cfg_fail(ctx, "E2cfg_file_onbatch", "E2-cfg file unit: %s" % e)
     except Exception as e:
